@@ -602,7 +602,7 @@ def block_mutual(rng, nops):
     def f(ln):
         L.append(ln); S.feed(ln)
     f("clr"); f("newsys"); f(mem_line(rng, 0.5))
-    shape = rng.choice(["mutual", "mutual", "self-memarr", "self-pgt", "three"])
+    shape = rng.choice(["mutual", "mutual", "self-memarr", "self-pgt", "three", "selfdesc"])
     def tab(t, bas, pg):
         if rng.random() < 0.5:
             return ("memarr", t, bas, pg, rng.choice([12, 16, 0]), rng.choice([8, 8, 3, 1, 5]), 8)
@@ -622,6 +622,18 @@ def block_mutual(rng, nops):
         f(map_line(M_KV_PHYS, [(FULL, 0)]))
         if rng.random() < 0.5:
             f(map_line(M_HW, [(FULL, 0)]))
+    elif shape == "selfdesc":
+        # a frame table that lives in the memory it describes, readable only through another address space: converting the address
+        # of the element that describes the table's own page reads that element, which needs a nested translation of the SAME
+        # address through ANOTHER chain (not a loop)
+        k = rng.randint(1, 60)
+        base = k << 12
+        f("rcaps 4")
+        f(meth_line(0, ("memarr", MACHPHYS, KPHYS, base, 12, 8, 8)))
+        f(meth_line(1, ("linear", KV, rng.choice([0x80000000, 0xffff880000000000, 0x1000]))))
+        f(map_line(M_KPHYS_MACHPHYS, [(FULL, 0)])); f(map_line(M_KPHYS_DIRECT, [(FULL, 1)]))
+        addrs = [(KPHYS, base + 8 * k), (KPHYS, base + 8 * k + 8), (KPHYS, base), (KPHYS, base + 8 * rng.randrange(512))]
+        return L + op_lines(rng, S, addrs, nops, caps_pool=[6, 2, 4, 6, 7])
     elif shape == "self-pgt":
         f("rcaps %d" % rng.choice([1, 2, 3]))
         fmt, fl = rng.choice([("pfn64", [12, 9, 9]), ("x86_64", [12, 9, 9, 9, 9])])
